@@ -42,6 +42,16 @@ inductive Op (G : Type) where
 
 def Ed.WF {G : Type} (s : Ed G) : Prop := s.cursor ≤ s.text.length
 
+/-! ### Words
+
+The property says motions "move by whole graphemes or words and stop at the ends".  A *word* is a
+maximal run of graphemes for which `isWord` holds; every other grapheme is a separator (blanks of
+any kind, punctuation, and whatever else the widget does not count as a word constituent — which
+graphemes are word constituents is the widget's classification and a parameter here; textinput:
+a single code point that is a letter or a number).  Moving right by a word skips the separators
+after the cursor, then the word; moving (or deleting) left mirrors it; at the ends of the text the
+motion stops (`lead` of an exhausted list is 0, positions never leave `0 … length`). -/
+
 /-- Number of leading elements satisfying `p`. -/
 def lead {G : Type} (p : G → Bool) (l : List G) : Nat := (l.takeWhile p).length
 
